@@ -40,17 +40,46 @@ func (w *c18Waker) kick() {
 	w.mu.Unlock()
 }
 
-// the universe of names and what the patterns *.log, a* and the ignore
-// expression \.gz$ say about each
-var c18Names = []string{"a.log", "b.log", "ab", "c.txt", "a.gz", "d.log"}
+// the universe of names: five fixed ones and one whose 1..5 bytes are
+// symbolic (slot "S", index 6 - filled in by the harness)
+var c18Names = []string{"a.log", "b.log", "ab", "c.txt", "a.gz", "d.log", ""}
 
+const c18Sym = 6
+
+// c18Eligible is the property's sentence for the patterns *.log and a* with
+// the ignore expression \.gz$: the name ends in ".log" or starts with "a",
+// and does not end in ".gz".
 func c18Eligible(name string) bool {
-	switch name {
-	case "a.log", "b.log", "ab", "d.log":
-		return true // a.log matches both patterns
+	n := len(name)
+	if n >= 3 && vStrEq(name[n-3:], ".gz") {
+		return false
 	}
-	return false // c.txt matches none, a.gz matches a* but is ignored
+	if n >= 4 && vStrEq(name[n-4:], ".log") {
+		return true
+	}
+	return n >= 1 && name[0] == 'a'
 }
+
+// c18SymName: 1..maxlen arbitrary bytes that can name a file (no '/', no
+// NUL, not "." or ".."), different from the fixed names; '%' is excluded
+// (URL escapes are not modelled by the engine's url.Parse).
+func c18SymName(maxLen int) string {
+	n := nondetRange("name.len", 1, maxLen)
+	b := make([]byte, n)
+	for i := range b {
+		b[i] = nondetByte("name.byte")
+		vAssume(b[i] != '/' && b[i] != 0 && b[i] != '%')
+	}
+	s := string(b)
+	vAssume(!vStrEq(s, ".") && !vStrEq(s, ".."))
+	for _, f := range c18Names[:c18Sym] {
+		vAssume(!vStrEq(s, f))
+	}
+	return s
+}
+
+// c18Line is the line written to file i.
+func c18Line(i int) string { return string(rune('A' + i)) }
 
 func c18Settle() {
 	vQuiesce()
@@ -60,16 +89,17 @@ func c18Settle() {
 
 func HarnessC18History() {
 	root := vfsRoot()
+	c18Names[c18Sym] = c18SymName(vParam("maxlen", 5))
 	lines := make(chan *logline.LogLine, 256)
 	var wg sync.WaitGroup
 	pw, sw := newC18Waker(), newC18Waker()
 	ctx, cancel := context.WithCancel(context.Background())
 	// what exists: 0 absent, 1 regular file, 2 directory
-	kind := map[string]int{}
+	kind := make([]int, len(c18Names))
 	if nondetRange("initial", 0, 1) == 1 {
 		// a file that is there before the tailer starts
 		vfsWrite("a.log", "")
-		kind["a.log"] = 1
+		kind[0] = 1
 	}
 	t, err := New(ctx, &wg, lines, LogPatterns([]string{root + "/*.log", root + "/a*"}), IgnoreRegex(`\.gz$`), LogPatternPollWaker(pw), LogstreamPollWaker(sw))
 	if err != nil || t == nil {
@@ -83,26 +113,26 @@ func HarnessC18History() {
 		if s > 0 {
 			switch op := nondetRange("op", 0, 4); op {
 			case 0: // a file appears
-				n := c18Names[nondetRange("name", 0, len(c18Names)-1)]
-				if kind[n] == 0 {
-					vfsWrite(n, "")
-					kind[n] = 1
+				i := nondetRange("name", 0, len(c18Names)-1)
+				if kind[i] == 0 {
+					vfsWrite(c18Names[i], "")
+					kind[i] = 1
 				}
 			case 1: // a file or directory goes away
-				n := c18Names[nondetRange("name", 0, len(c18Names)-1)]
-				if kind[n] != 0 {
-					vfsRemove(n)
-					kind[n] = 0
+				i := nondetRange("name", 0, len(c18Names)-1)
+				if kind[i] != 0 {
+					vfsRemove(c18Names[i])
+					kind[i] = 0
 				}
 			case 2: // a directory with a matching name appears
-				if kind["d.log"] == 0 {
+				if kind[5] == 0 {
 					vfsMkdir("d.log")
-					kind["d.log"] = 2
+					kind[5] = 2
 				}
 			case 3: // a.log is renamed to b.log
-				if kind["a.log"] == 1 && kind["b.log"] == 0 {
+				if kind[0] == 1 && kind[1] == 0 {
 					vfsRename("a.log", "b.log")
-					kind["a.log"], kind["b.log"] = 0, 1
+					kind[0], kind[1] = 0, 1
 				}
 			case 4: // a poll without change
 			}
@@ -117,9 +147,9 @@ func HarnessC18History() {
 		t.logstreamsMu.RLock()
 		n := len(t.logstreams)
 		want := 0
-		for _, name := range c18Names {
+		for i, name := range c18Names {
 			_, tailed := t.logstreams[root+"/"+name]
-			if kind[name] == 1 && c18Eligible(name) {
+			if kind[i] == 1 && c18Eligible(name) {
 				want++
 				vAssert(tailed, "C18.matching-file-is-tailed-after-the-next-poll")
 			} else {
@@ -131,9 +161,9 @@ func HarnessC18History() {
 		// a line appended to every existing file arrives exactly once, from
 		// the eligible files only
 		seq++
-		for _, name := range c18Names {
-			if kind[name] == 1 {
-				vfsAppend(name, name+"\n")
+		for i, name := range c18Names {
+			if kind[i] == 1 {
+				vfsAppend(name, c18Line(i)+"\n")
 			}
 		}
 		sw.kick()
@@ -143,11 +173,11 @@ func HarnessC18History() {
 			l := <-lines
 			got[l.Line]++
 		}
-		for _, name := range c18Names {
-			if kind[name] == 1 && c18Eligible(name) {
-				vAssert(got[name] == 1, "C18.each-line-of-a-tailed-file-is-delivered-exactly-once")
+		for i, name := range c18Names {
+			if kind[i] == 1 && c18Eligible(name) {
+				vAssert(got[c18Line(i)] == 1, "C18.each-line-of-a-tailed-file-is-delivered-exactly-once")
 			} else {
-				vAssert(got[name] == 0, "C18.no-line-from-a-file-that-is-not-to-be-tailed")
+				vAssert(got[c18Line(i)] == 0, "C18.no-line-from-a-file-that-is-not-to-be-tailed")
 			}
 		}
 	}
